@@ -12,7 +12,7 @@ import (
 func init() {
 	register(&Rule{
 		Name:     "SERVICEONLY",
-		Doc:      "in every switch over meta.ParseServiceMode of the IDL parsers, each clause for a `…ServiceOnly` mode re-slices the service list it will iterate over (an assignment `svcs = svcs[…]`), as its sibling clause does: taking only the service NAME from the chosen service while iterating over all of them exposes the methods of every service",
+		Doc:      "in every switch over meta.ParseServiceMode of the IDL parsers, each clause for a `…ServiceOnly` mode re-assigns the service list it will iterate over (`svcs = svcs[…]` or any other assignment to a slice-typed variable), as its sibling clause does: taking only the service NAME from the chosen service while iterating over all of them exposes the methods of every service",
 		Configs:  "NP",
 		Floor:    map[string]int{"N": 4, "P": 4},
 		Controls: 1,
@@ -41,6 +41,14 @@ func init() {
 		Floor:    map[string]int{"N": 2, "P": 2},
 		Controls: 0,
 		Run:      runMsgMask,
+	})
+	register(&Rule{
+		Name:     "KEYBOTH",
+		Doc:      "meta.MapFieldWay has three values — by alias, by name, and BOTH. In thrift.parseType the code that registers a field's lookup keys has, besides a branch that registers the alias and one that registers the name, a branch (one statement list) that registers both with two names.Set calls: otherwise MapFieldUseBoth degrades to one of the other two",
+		Configs:  "NP",
+		Floor:    map[string]int{"N": 1, "P": 1},
+		Controls: 0,
+		Run:      runKeyBoth,
 	})
 	register(&Rule{
 		Name:     "TARGETAFFINITY",
@@ -72,9 +80,12 @@ func runServiceOnly(rc *RuleCtx) {
 			rc.Examined++
 			resliced := false
 			for _, st := range cl.body {
-				if as, ok := st.(*ast.AssignStmt); ok && len(as.Lhs) == 1 && len(as.Rhs) == 1 {
-					if se, ok := as.Rhs[0].(*ast.SliceExpr); ok && types.ExprString(se.X) == types.ExprString(as.Lhs[0]) {
-						resliced = true
+				// any re-assignment of a slice-typed variable in the clause counts (re-slice, one-element literal, helper call)
+				if as, ok := st.(*ast.AssignStmt); ok && as.Tok == token.ASSIGN && len(as.Lhs) >= 1 {
+					if t := ks.pkg.TypesInfo.TypeOf(as.Lhs[0]); t != nil {
+						if _, isSlice := t.Underlying().(*types.Slice); isSlice {
+							resliced = true
+						}
 					}
 				}
 			}
@@ -240,4 +251,51 @@ func runTargetAffinity(rc *RuleCtx) {
 			})
 		}
 	}
+}
+
+func runKeyBoth(rc *RuleCtx) {
+	p, fd := rc.W.findDecl("thrift.parseType")
+	_ = p
+	lists := 0
+	both := false
+	ast.Inspect(fd.Body, func(n ast.Node) bool {
+		var list []ast.Stmt
+		switch x := n.(type) {
+		case *ast.BlockStmt:
+			list = x.List
+		case *ast.CaseClause:
+			list = x.Body
+		default:
+			return true
+		}
+		args := map[string]bool{}
+		for _, st := range list {
+			es, ok := st.(*ast.ExprStmt)
+			if !ok {
+				continue
+			}
+			ce, ok := es.X.(*ast.CallExpr)
+			if !ok || len(ce.Args) != 2 {
+				continue
+			}
+			sel, ok := ce.Fun.(*ast.SelectorExpr)
+			if !ok || sel.Sel.Name != "Set" || !strings.HasSuffix(types.ExprString(sel.X), "names") {
+				continue
+			}
+			args[types.ExprString(ce.Args[0])] = true
+		}
+		if len(args) > 0 {
+			lists++
+		}
+		if len(args) >= 2 {
+			both = true
+		}
+		return true
+	})
+	if lists == 0 {
+		broken("KEYBOTH: no names.Set call found in thrift.parseType")
+	}
+	rc.Examined++
+	rc.add(nil, "thrift.parseType", "MapFieldUseBoth", fd.Pos(), map[bool]string{true: "discharged", false: "violated"}[both],
+		map[bool]string{true: "one branch registers both the alias and the name", false: "no branch registers two different keys: under MapFieldUseBoth a field is reachable by only one of its alias and its name"}[both], false)
 }
